@@ -11,7 +11,7 @@ CHECK = {
     "technique": "seeded retire / region / stop episodes on the real GarbageCollector under schedule perturbation (hook "
                  "points gc:consumed, gc:backoff, epoch:*, bq:*; interposed usleep back-off); per-reclaimer invocation "
                  "counters, region-open snapshot at retire, offline oracle over stamped retire / region / invoke / stop "
-                 "histories, stuck rule; TSan/ASan/UBSan",
+                 "histories, stuck rule; TSan/ASan/UBSan; wrap mode (> 32768 x capacity retirements through a tiny queue under a full queue)",
     "level_text": ("Runtime monitoring of the real GarbageCollector<R>: 1-6 retiring threads (retire(R) and batch "
                    "retire(R, epoch), own short regions) and 0-3 region holders (thread-local style or Accessors, regions "
                    "handed to other threads to be closed) drive a collector with queue capacity default/1/2/8/1024; stop() or "
